@@ -150,6 +150,10 @@ class Prov:
         if p[0] in ("i", "ci", "s"):
             if k == "agg" and e[1] == "array":
                 return mkphi([x for _, x in e[2]]) if e[2] else ("unknown", "empty-array")
+            if p[0] == "i":
+                return ("index", e, self.local(p[1]))
+            if p[0] == "ci" and not p[3]:
+                return ("index", e, ("const", str(p[1])))
             return ("index", e)
         return e
 
@@ -268,7 +272,7 @@ def fmt(e, depth=0):
     if k == "as":
         return "(%s as %s)" % (fmt(e[1], depth + 1), e[2])
     if k == "index":
-        return "%s[_]" % fmt(e[1], depth + 1)
+        return "%s[%s]" % (fmt(e[1], depth + 1), fmt(e[2], depth + 1) if len(e) > 2 else "_")
     if k == "call":
         return "%s(%s)" % (short(e[1]), ", ".join(fmt(a, depth + 1) for a in e[2]))
     if k == "const":
@@ -657,7 +661,7 @@ def fmt_short(e, depth=0):
     if k == "as":
         return fmt_short(e[1], depth)
     if k == "index":
-        return "%s[]" % fmt_short(e[1], depth)
+        return "%s[%s]" % (fmt_short(e[1], depth), fmt_short(e[2], depth + 1) if len(e) > 2 else "")
     if k == "const":
         return str(e[1])
     if k == "bin":
